@@ -1,7 +1,15 @@
-"""C21, pyvc part -- helper module of contracts/c21.py (imported at its top).
+"""C21, pyvc part -- helper module of contracts/c21.py (imported at its top; the bounded / syntactic parts live there).
 
 Functions under contract, in their real source:
    sqlfluff.core.rules.base:    RuleSet._expand_rule_refs                  (pyvc: whole function, both loops)
+                                RuleSet.rule_reference_map                 (pyvc: whole function, 4 loops, dict comprehensions, merges)
+                                RuleSet.get_rulepack#selection             (pyvc region contract: selector lists -> code list)
+   sqlfluff.core.linter.linter: Linter.lint_fix_parsed#rule-loop           (pyvc region contract: the phase / pass / rule loop nest)
+
+Vocabulary.  `glob(pat, name)` (uninterpreted: fnmatch decides which names a pattern matches); `hit(r, m, c)`: selector r stands for
+rule code c under reference map m; `selects(sels, m, c)`: some selector of a list does; `wanted(config, m, c)`: the configuration
+selects c (rules, default every rule, minus exclude_rules); is_code / is_name / is_group / is_alias / refers over the register;
+ghost crawl counters `crawls` / `found` and `origin(e)` for the rule loop.
 """
 import fnmatch
 
@@ -69,7 +77,7 @@ class expand_rule_refs:
     types = {"self": RuleSet, "glob_list": TList(StrN), "reference_map": RefMap, "expanded_rule_set": TSet(StrN),
              "matched_refs": TList(StrN)}
     ret = TSet(StrN)
-    opts = {"alphabet": "ab*?", "max_len": 2, "timeout_ms": 10000, "max_unknown": 3}
+    opts = {"alphabet": "ab*?", "max_len": 2, "timeout_ms": 5000, "max_unknown": 2}
 
     def ensures(glob_list, reference_map, result):
         return (
@@ -106,7 +114,7 @@ def is_code(reg, k):
 
 @spec
 def is_name(reg, k):
-    return k != "" and any(reg[c].name == k for c in reg.keys())
+    return len(k) > 0 and any(reg[c].name == k for c in reg.keys())
 
 
 @spec
@@ -117,6 +125,12 @@ def is_group(reg, k):
 @spec
 def is_alias(reg, k):
     return any(k in reg[c].aliases for c in reg.keys())
+
+
+@spec(uninterpreted=True)
+def owner(reg: Register, name: StrN) -> StrN:
+    """the code of a registered rule with that name ("" when there is none)"""
+    return next((c for c in sorted(reg) if reg[c].name == name), "")
 
 
 @spec
@@ -134,14 +148,15 @@ class rule_reference_map:
     types = {"self": RuleSet, "valid_codes": TSet(StrN), "reference_map": RefMap, "name_map": RefMap, "name_collisions": TSet(StrN),
              "group_map": GroupMap, "alias_map": GroupMap}
     ret = RefMap
-    opts = {"timeout_ms": 10000, "max_unknown": 3}
+    opts = {"timeout_ms": 12000, "max_unknown": 2, "alphabet": "AB1", "max_len": 2}
 
     def requires(self):
         reg = self._register
         # from the code: RuleSet.register stores each manifest under its own code (and refuses a second rule with the same code);
         # rule names are assumed unique (true of the bundled rules, checked on every run; NOT enforced by register())
+        # (uniqueness stated through `owner`: every named rule is THE owner of its name)
         return (all(reg[c].code == c for c in reg.keys())
-                and all(implies(reg[a].name != "" and a != b, reg[a].name != reg[b].name) for a in reg.keys() for b in reg.keys()))
+                and all(implies(len(reg[c].name) > 0, owner(reg, reg[c].name) == c) for c in reg.keys()))
 
     def ensures(self, result):
         reg = self._register
@@ -150,7 +165,7 @@ class rule_reference_map:
             all(is_code(reg, k) or is_name(reg, k) or is_group(reg, k) or is_alias(reg, k) for k in result.keys())
             # ... and every reference
             and all(c in result for c in reg.keys())
-            and all(reg[c].name == "" or reg[c].name in result for c in reg.keys())
+            and all(implies(len(reg[c].name) > 0, reg[c].name in result) for c in reg.keys())
             and all(g in result for c in reg.keys() for g in reg[c].groups)
             and all(a in result for c in reg.keys() for a in reg[c].aliases)
             # values: exactly the rules the reference stands for, under the precedence codes > names > groups > aliases
@@ -181,17 +196,24 @@ class rule_reference_map:
         b = all(c in reg and g in reg[c].groups for g in group_map.keys() for c in group_map[g])
         c = all(implies(not (g in reference_map), g in group_map and _iter[j].code in group_map[g])
                 for j in range(0, _i) for g in _iter[j].groups)
-        return a and b and c
+        # checkpoint: what the map of codes and names (built before this loop, not written by it) is
+        C = all(k in reference_map and k in reference_map[k] and all(d == k for d in reference_map[k]) for k in reg.keys())
+        N1 = all(implies(len(reg[k].name) > 0, reg[k].name in reference_map) for k in reg.keys())
+        N2 = all(implies(len(reg[k].name) > 0 and not (reg[k].name in reg), k in reference_map[reg[k].name]) for k in reg.keys())
+        N3 = all(implies(len(reg[k].name) > 0 and not (reg[k].name in reg), d == k) for k in reg.keys() for d in reference_map[reg[k].name])
+        K = all(k in reg or is_name(reg, k) for k in reference_map.keys())
+        return a and b and c and C and N1 and N2 and N3 and K
 
     def inv_2(self, reference_map, group_map, manifest, _iter, _i2, _head1):
         reg = self._register
         H = _head1.group_map
         a = all(not (g in reference_map) and is_group(reg, g) for g in group_map.keys())
         b = all(c in reg and g in reg[c].groups for g in group_map.keys() for c in group_map[g])
-        m = all(g in group_map and all(c in group_map[g] for c in H[g]) for g in H.keys())      # the map only grows
+        m = all(g in group_map for g in H.keys())      # the map only grows: keys ...
+        m2 = all(c in group_map[g] for g in H.keys() for c in H[g])      # ... and values
         q = all(implies(not (_iter[k] in reference_map), _iter[k] in group_map and manifest.code in group_map[_iter[k]])
                 for k in range(0, _i2))
-        return a and b and m and q
+        return a and b and m and m2 and q
 
     # alias loop: the same, over the map that already holds codes, names and groups
     def inv_3(self, reference_map, alias_map, _iter, _i):
@@ -207,10 +229,11 @@ class rule_reference_map:
         H = _head3.alias_map
         a = all(not (g in reference_map) and is_alias(reg, g) for g in alias_map.keys())
         b = all(c in reg and g in reg[c].aliases for g in alias_map.keys() for c in alias_map[g])
-        m = all(g in alias_map and all(c in alias_map[g] for c in H[g]) for g in H.keys())
+        m = all(g in alias_map for g in H.keys())
+        m2 = all(c in alias_map[g] for g in H.keys() for c in H[g])
         q = all(implies(not (_iter[k] in reference_map), _iter[k] in alias_map and manifest.code in alias_map[_iter[k]])
                 for k in range(0, _i4))
-        return a and b and m and q
+        return a and b and m and m2 and q
 
 
 # ================================================================== 3. RuleSet.get_rulepack: the selection arithmetic
@@ -265,7 +288,7 @@ class get_rulepack_selection:
              "allowlisted_unknown_rule_codes": TList(StrN), "denylisted_unknown_rule_codes": TList(StrN),
              "expanded_allowlist": TSet(StrN), "expanded_denylist": TSet(StrN)}
     ghost_out = {"keylist": TList(StrN)}
-    opts = {"timeout_ms": 10000, "max_unknown": 3}
+    opts = {"timeout_ms": 4000, "max_unknown": 2}
 
     def requires(self, valid_codes, reference_map):
         # what the statements before the range establish (EXTRA obligation `get_rulepack-region-inputs` of c21.py checks that these
@@ -424,8 +447,8 @@ class lint_fix_parsed_rule_loop:
     def requires(rule_pack, fix, loop_limit):
         R = rule_pack.rules
         # assumptions about what precedes the range: get_rulepack instantiates one rule object per selected code (the members of a
-        # pack are distinct objects); loop_limit = config.get("runaway_limit") if fix else 1; a runaway_limit below 1 is excluded
-        # (NOT_COVERED: with runaway_limit = 0 `fix` runs no rule at all)
+        # pack are distinct objects); loop_limit = config.get("runaway_limit") if fix else 1 (EXTRA clause lint_fix_parsed-loop-limit),
+        # and FluffConfig refuses a runaway_limit below 1 (core/config/validate.py: _validate_int_config(.., "runaway_limit", 1, ..))
         return (all(R[a] != R[b] for a in range(len(R)) for b in range(a + 1, len(R)))
                 and loop_limit >= 1 and implies(not fix, loop_limit == 1))
 
